@@ -19,7 +19,11 @@ SameOutcome(a, b) == /\ a.out = b.out /\ a.kind = b.kind /\ a.succ = b.succ /\ a
 SameNumbers(a, b) ==
     /\ Near(a.vJ, b.vJ, 200) /\ Near(a.alN, b.alN, 200)                       \* hydrodynamics rtol 1e-6 (x margin)
     /\ (a.lte = "root" => Near(a.vLTE, b.vLTE, 200))
-    /\ NearSeq(a.ranges, b.ranges, 2000)                                      \* tabulated ranges / Tn (1e-6 ticks)
+    \* tabulated ranges / Tn (1e-6 ticks): an end where the phase genuinely disappears is a physical temperature (0.2%);
+    \* an unflagged end is only where the last step before the requested end happened to fall (2%: not an output the
+    \* property lists -- the step sequence of the tracer may differ between unit systems)
+    /\ Len(a.ranges) = Len(b.ranges)
+    /\ \A k \in 1..Len(a.ranges) : Near(a.ranges[k], b.ranges[k], IF a.flags[k] THEN 2000 ELSE 20000)
     /\ a.kind = "VELOCITY" =>
          /\ Near(a.vw, b.vw, 2 * a.errTol)
          /\ Near(a.Tp, b.Tp, 2000) /\ Near(a.Tm, b.Tm, 2000)                   \* temperatures follow vw: d T/d vw ~ 0.1
